@@ -244,7 +244,21 @@ func checkC13(e *Engine, r *Report) {
 			// same context for the three
 			ok = ok && samePath(argOf(inc[0], 0), argOf(sg[0], 0)) && samePath(argOf(inc[0], 0), argOf(sr[0], 0))
 		}
-		r.Check(ok, "x/evm/keeper.Keeper.SetupExecutionContext › counted tx gets gas + receipt", e.Pos(sec.Pos()), "Increase → SetGasUsed → SetTxReceipt on every path, same ctx", "a transaction can be counted without a gas entry or receipt (EndBlock's GetTxReceiptsTransient panics: chain halt; cumulative gas of later txs wrong)")
+		if ok {
+			// the assume-failed receipt's cumulative gas sums the slots INCLUDING the current one: the gas slot must be written before
+			// the receipt bytes are computed, not merely before they are stored
+			if rc, _ := callOf(resolveLocal(argOf(sr[0], 1))); rc != nil && rc.Parent() == sec {
+				if !dominatesInstr(sg[0].(ssa.Instruction), rc) {
+					ok = false
+				}
+			}
+			for _, cc := range callsTo(sec, false, CallSpec{pkgEvmKeeper, "Keeper", "getCumulativeGasUsedTransient"}) {
+				if !dominatesInstr(sg[0].(ssa.Instruction), cc.(ssa.Instruction)) {
+					ok = false
+				}
+			}
+		}
+		r.Check(ok, "x/evm/keeper.Keeper.SetupExecutionContext › counted tx gets gas + receipt", e.Pos(sec.Pos()), "Increase → SetGasUsed → (receipt built) → SetTxReceipt on every path, same ctx", "a transaction can be counted without a gas entry or receipt, or its assume-failed receipt is built before its gas slot is written (cumulative gas of a transaction that fails outside execution misses its own gas limit) (EndBlock's GetTxReceiptsTransient panics: chain halt; cumulative gas of later txs wrong)")
 		// receipt bytes non-empty: derive from MarshalBinary of a Receipt literal with Status failed
 		if len(sr) == 1 {
 			secReg := e.privateRegion(sec)
@@ -696,4 +710,26 @@ func txIndexUsedOnlyAfterCounting(e *Engine) (checked int, problems []string) {
 	}
 	sort.Strings(problems)
 	return
+}
+
+// setupExecGasBeforeReceipt (shared by C13-R3 and C05-R7): in SetupExecutionContext the current transaction's gas slot is written
+// before the assume-failed receipt (whose cumulative gas sums the slots including the current one) is computed.
+func setupExecGasBeforeReceipt(e *Engine) bool {
+	sec := e.Fn(pkgEvmKeeper, "Keeper.SetupExecutionContext")
+	sg := callsTo(sec, false, CallSpec{pkgEvmKeeper, "Keeper", "SetGasUsedForCurrentTxTransient"})
+	sr := callsTo(sec, false, CallSpec{pkgEvmKeeper, "Keeper", "SetTxReceiptForCurrentTxTransient"})
+	if len(sg) != 1 || len(sr) != 1 {
+		return false
+	}
+	if rc, _ := callOf(resolveLocal(argOf(sr[0], 1))); rc != nil && rc.Parent() == sec {
+		if !dominatesInstr(sg[0].(ssa.Instruction), rc) {
+			return false
+		}
+	}
+	for _, cc := range callsTo(sec, false, CallSpec{pkgEvmKeeper, "Keeper", "getCumulativeGasUsedTransient"}) {
+		if !dominatesInstr(sg[0].(ssa.Instruction), cc.(ssa.Instruction)) {
+			return false
+		}
+	}
+	return true
 }
